@@ -37,6 +37,8 @@ def parse_enum_item(s, loc, tok):
     student [note: "is stupid"]
     '''
     init_dict = {'name': tok['name']}
+    if 'comment' in tok:
+        init_dict['comment'] = tok['comment'][0]
     if 'settings' in tok:
         init_dict.update(tok['settings'])
         # comments after settings have priority
